@@ -36,6 +36,7 @@ from contextlib import suppress
 from datetime import datetime, timezone
 from hashlib import sha256
 from secrets import token_bytes, token_hex
+from typing import NamedTuple
 
 
 class Bag:
@@ -73,6 +74,22 @@ def greet(name: str = "bob", punct: str = "!") -> str:
 
 TOTAL = 0
 OTHER = 0
+
+
+# look-alikes of the self-matching builtins in class patterns: only the builtins themselves (and plain subclasses) bind
+# the whole subject to a single positional sub-pattern; a class with its own __match_args__ binds its first field
+class PointNT(NamedTuple):
+    px: int
+    py: int
+
+
+class TaggedList(list):  # type: ignore[type-arg]
+    __match_args__ = ("tag",)
+    tag: int = 7
+
+
+class Stack(list):  # type: ignore[type-arg]
+    pass
 '''
 
 # value pools for the annotations used below that c01.POOLS does not have ('expr' pools are evaluated in the case module)
@@ -89,8 +106,9 @@ STMT_EXPR_POOLS: dict[str, list[str]] = {
     "Path": ['Path("a.txt")', 'Path("empty")', 'Path("sub")', 'Path("sub/b.bin")', 'Path("missing")', 'Path("link")', 'Path("new/deep")', 'Path("")', 'Path("notes.md")', 'Path(".md")', 'Path("sub/x.tar.md")'],
     "re.Pattern[str]": ['re.compile("a+")', 're.compile("(b)|c")', 're.compile("")', 're.compile("x.txt$")'],
     "Bag": ["Bag()"],
+    "matchobj": ["PointNT(1, 2)", "TaggedList()", "Stack([1, 2])", "(3, 4)", "[5]", "6", '"s"'],
 }
-ANNOT = {"relpath": "str", "newpath": "str", "bytespath": "bytes", "isodate": "str", "tabbed": "str", "prefixed": "str", "mode": "int"}
+ANNOT = {"matchobj": "object", "relpath": "str", "newpath": "str", "bytespath": "bytes", "isodate": "str", "tabbed": "str", "prefixed": "str", "mode": "int"}
 
 E = re.escape
 R_APP = r"^Replace `{0}\.append\(\.\.\.\); {0}\.append\(\.\.\.\)` with `{0}\.extend\(\(\.\.\., \.\.\.\)\)`$"
@@ -221,6 +239,10 @@ CASES: list[tuple[int, list[tuple[str, ...]], str, str | None, str, dict[str, An
     (158, [("p", "object")], 'match p:\n    case str() as s0:\n        return "s" + s0\n    case int() as n0:\n        return n0 + 1\n    case list() as l0:\n        return l0\nreturn None', 'match p:\n    case str(s0):\n        return "s" + s0\n    case int() as n0:\n        return n0 + 1\n    case list() as l0:\n        return l0\nreturn None', lit("Replace `str() as s0` with `str(s0)`"), {}),
     (158, [("p", "object")], 'match p:\n    case bool() as b1:\n        return ("b", b1)\n    case float() as f1:\n        return ("f", f1)\n    case tuple() as t1:\n        return ("t", t1)\nreturn None', 'match p:\n    case bool() as b1:\n        return ("b", b1)\n    case float(f1):\n        return ("f", f1)\n    case tuple() as t1:\n        return ("t", t1)\nreturn None', lit("Replace `float() as f1` with `float(f1)`"), {}),
     (158, [("p", "object")], 'match p:\n    case bool() as b1:\n        return ("b", b1)\n    case float() as f1:\n        return ("f", f1)\n    case tuple() as t1:\n        return ("t", t1)\nreturn None', 'match p:\n    case bool() as b1:\n        return ("b", b1)\n    case float() as f1:\n        return ("f", f1)\n    case tuple(t1):\n        return ("t", t1)\nreturn None', lit("Replace `tuple() as t1` with `tuple(t1)`"), {}),
+    # guards: classes that merely derive from a self-matching builtin (a NamedTuple, a dataclass on a list base, a plain subclass)
+    (158, [("p", "matchobj")], 'match p:\n    case PointNT() as v0:\n        return ("nt", v0)\n    case _:\n        return ("other", p)', 'match p:\n    case PointNT(v0):\n        return ("nt", v0)\n    case _:\n        return ("other", p)', r"^Replace `PointNT\(\) as v0` with", {"fires": False}),
+    (158, [("p", "matchobj")], 'match p:\n    case TaggedList() as v1:\n        return ("tl", v1)\n    case _:\n        return ("other", p)', 'match p:\n    case TaggedList(v1):\n        return ("tl", v1)\n    case _:\n        return ("other", p)', r"^Replace `TaggedList\(\) as v1` with", {"fires": False}),
+    (158, [("p", "matchobj")], 'match p:\n    case Stack() as v2:\n        return ("st", v2)\n    case _:\n        return ("other", p)', 'match p:\n    case Stack(v2):\n        return ("st", v2)\n    case _:\n        return ("other", p)', r"^Replace `Stack\(\) as v2` with", {"fires": False}),
     (134, [("nums", "list[int]")], "calls = []\n@lru_cache(maxsize=None)\ndef sq(a1: int) -> int:\n    calls.append(a1)\n    return a1 * a1\nout = [sq(e) for e in nums + nums]\nreturn out, calls, sq.cache_info()", "calls = []\n@cache\ndef sq(a1: int) -> int:\n    calls.append(a1)\n    return a1 * a1\nout = [sq(e) for e in nums + nums]\nreturn out, calls, sq.cache_info()", lit("Replace `@lru_cache(maxsize=None)` with `@cache`"), {}),
     (134, [("nums", "list[int]")], "@functools.lru_cache(maxsize=None)\ndef sq(a1: int) -> int:\n    return a1 * a1\nreturn [sq(e) for e in nums], sq.cache_info()", "@functools.cache\ndef sq(a1: int) -> int:\n    return a1 * a1\nreturn [sq(e) for e in nums], sq.cache_info()", lit("Replace `@functools.lru_cache(maxsize=None)` with `@functools.cache`"), {}),
     (134, [("nums", "list[int]")], "@lru_cache(maxsize=2)\ndef sq(a1: int) -> int:\n    return a1 * a1\nreturn [sq(e) for e in nums], sq.cache_info()", "@cache\ndef sq(a1: int) -> int:\n    return a1 * a1\nreturn [sq(e) for e in nums], sq.cache_info()", r"cache", {"fires": False}),
